@@ -5,7 +5,11 @@ Tier B (bounded run-time contract sweep; deduction not applicable, DESIGN sectio
 Contract on the real ``pp.Mpfa(kw).discretize(sd, data)``:
 
 requires  sd a 2-D/3-D grid with valid cells (Cartesian, structured simplex, node-perturbed), K a constant SPD
-          tensor, every boundary face Dirichlet or Neumann with at least one Dirichlet face.
+          tensor, every boundary face Dirichlet or Neumann with at least one Dirichlet face.  A 2-D grid may lie in the
+          xy-plane or be a planar surface rigidly rotated out of it (embedded in 3-D; porepy rotates grid and tensor into
+          the grid plane internally); K is then the 3x3 tensor in ambient coordinates -- an in-plane SPD tensor rotated
+          with the grid (R K R^T) or a full SPD tensor not aligned with the plane -- and the gradient a is tangential
+          (a in span{R e_x, R e_y}; a normal component only adds a constant on the grid).
 ensures   for p(x) = a0 + a.x, p_c = p(cell centres), p_b = p(face centre) on Dirichlet faces and the outward
           Darcy flux  s_f * (-(K a).n_f)  on Neumann faces (porepy convention: outflow positive, integrated
           over the face):
@@ -14,7 +18,7 @@ ensures   for p(x) = a0 + a.x, p_c = p(cell centres), p_b = p(face centre) on Di
             (3) a = 0 (constant pressure)                => zero flux.
           The expected right-hand sides are computed here from the grid geometry (face normals, centres) and K in
           dense numpy, never from the discretisation.  Matrix application is linear, so "for all linear p" is
-          discharged completely by the affine basis {1, x, y(, z)}.
+          discharged completely by the affine basis {1, x, y(, z)} ({1, (R e_x).x, (R e_y).x} on an embedded grid).
 
 Detection power (mutants injected one at a time into a scratch copy of /repo/src, POREPY_SRC=<copy>):
   M1 mpfa.py  _create_bound_rhs: Neumann sign ``scaled_sgn = -1/num_face_nodes`` -> ``+1/...``
@@ -29,6 +33,9 @@ Detection power (mutants injected one at a time into a scratch copy of /repo/src
   M5 _fvutils.py ExcludeBoundaries.__init__: ``exclude_neu_rob = _exclude_matrix(is_neu | is_rob)`` -> ``(is_dir | is_rob)`` (swapped filter)
        caught by "Mpfa.discretize: terminates without exception on an admissible input" (dimension mismatch) on every layout;
        the replay file reproduces it (./check C11 --replay ... -> REPRODUCED)
+  M6 mpfa.py  _flux_discretization (2-D branch): rotation of K into the grid plane ``R K R^T`` -> ``R^T K R`` (einsum with swapped
+       indices; invisible for grids in the xy-plane, 3-D grids and isotropic K)
+       caught by "exact Darcy flux of a linear field" / "boundary pressure reconstruction" on the embedded 2-D classes only
 """
 from __future__ import annotations
 
@@ -40,8 +47,9 @@ META = {
                  "linear-field quantifier is discharged completely by the affine basis (linearity of matrix application)",
     "text": "Bounded assurance only: the exactness clauses (Darcy flux on every face, boundary pressure trace, zero flux for "
             "constants) hold on every enumerated case; no claim for grids/tensors/boundary layouts outside the family. "
-            "Deduction is not applicable (floating-point inverses of local systems). Not covered: Robin conditions, "
-            "2-D grids embedded in 3-D, heterogeneous K (outside the statement), all-Neumann layouts.",
+            "Deduction is not applicable (floating-point inverses of local systems). Covered since the extension: planar 2-D grids "
+            "rigidly rotated out of the xy-plane (embedded in 3-D) with anisotropic SPD tensors given in ambient coordinates. "
+            "Not covered: Robin conditions, heterogeneous K (outside the statement), all-Neumann layouts, non-planar 2-D surfaces.",
     "note": "oracle = -(K grad p).n_f from grid geometry arrays (face_normals, face_centers, cell_centers; their correctness is "
             "C19); tolerance 1e-9 x (kmax*area/h)*max|p|",
 }
@@ -295,19 +303,24 @@ def run(rep):
                        "pp.fvutils.ExcludeBoundaries", "pp.fvutils.compute_dist_face_cell")
     rep.trust("grid geometry arrays (face_normals, face_centers, cell_centers, cell_faces) -- property C19",
               "dense numpy evaluation of -(K a).n_f as oracle")
-    rep.assume("Neumann data follow porepy's documented convention: flux integrated over the face, outflow positive")
+    rep.assume("Neumann data follow porepy's documented convention: flux integrated over the face, outflow positive",
+               "for a planar 2-D grid embedded in 3-D the permeability is given as the 3x3 tensor in ambient coordinates and the exact "
+               "Darcy flux of a field with tangential gradient a through a face is -(K a).n_f with the in-plane area-weighted normal n_f")
     quick = rep.tier == "quick"
     rng = rep.rng
     specs = grid_specs(pp, rng, quick)
     with rep.sweep(
         "mpfa linear exactness",
         rule="grids {Cartesian, structured triangle/tetrahedral} x {unperturbed, seeded node perturbation of all nodes keeping cells "
-             "star-shaped, affine image} x K in {isotropic, diagonal anisotropic, full SPD} x boundary layouts {all Dirichlet, one Neumann "
+             "star-shaped, affine image} x {2-D grids: in the xy-plane, rigidly rotated out of it (embedded in 3-D)} x K in {isotropic, "
+             "diagonal anisotropic, full SPD; embedded: the in-plane tensors rotated with the grid and a full SPD tensor not aligned with "
+             "the plane} x boundary layouts {all Dirichlet, one Neumann "
              "face, one Dirichlet face, seeded random per-face mixes with >=1 Dirichlet}; per case the complete affine basis {1,x,y(,z)} is "
              "checked, which covers ALL linear fields by linearity of matrix application; distinct by (grid spec, tensor, layout string); "
              "non-trivial = not the default (unperturbed Cartesian, isotropic, all-Dirichlet) combination",
         bound="2-D up to 4x3 cells, 3-D up to 3x2x2 hexahedra / 2x2x2x6 tetrahedra; perturbation <= 0.25 h; "
-              + ("2" if quick else "6") + " random layouts per (grid, tensor)",
+              + ("2" if quick else "6") + " random layouts per (grid, tensor) (" + ("1" if quick else "3") + " on embedded grids); "
+              + ("5 embedded grids, 2 rotations" if quick else "every 2-D grid variant embedded once, 4 rotations"),
         exhaustive=False,
     ) as sw:
         for spec in specs:
